@@ -80,3 +80,36 @@ Proof.
            ++ cbn [find fst]. rewrite bytes_eqb_refl. reflexivity.
            ++ cbn [find fst]. rewrite He. exact IH.
 Qed.
+
+(* a topic containing NUL is rejected without leaving any trace *)
+Lemma append_nul s i f :
+  has_nul (f_topic f) = true -> exists e, append s i f = (Err e, s).
+Proof.
+  intros Hn. unfold append. cbn [f_topic f_ctx f_ttl f_hash f_meta f_id].
+  destruct (is_ctx_topic (f_topic f)) eqn:Hc.
+  - apply is_ctx_topic_nonul in Hc. rewrite Hc in Hn. discriminate.
+  - destruct (mem (f_ctx f) (s_ctxs s)) eqn:Hm.
+    + cbn [f_topic]. rewrite Hn. exists ErrNul. destruct s; reflexivity.
+    + exists ErrInvalidCtx. reflexivity.
+Qed.
+
+Lemma import_nul s f : has_nul (f_topic f) = true -> insert_frame s f = (Err ErrNul, s).
+Proof. intros Hn. unfold insert_frame, insert_frame_gen. rewrite Hn. reflexivity. Qed.
+
+(* an ephemeral append stores nothing: the three partitions, the registry and the GC queue are
+   untouched; the frame goes to the broadcast channel only *)
+Lemma append_ephemeral_not_stored s i f g s' :
+  append s i f = (Ok g, s') -> f_ttl g = Some Ephemeral ->
+  s_stream s' = s_stream s /\ s_itopic s' = s_itopic s /\ s_ictx s' = s_ictx s /\
+  s_gcq s' = s_gcq s /\ s_bcast s' = s_bcast s ++ [g] /\ s_ctxs s' = s_ctxs s.
+Proof.
+  unfold append. cbn [f_topic f_ctx f_ttl f_hash f_meta f_id].
+  destruct (is_ctx_topic (f_topic f)) eqn:Hc.
+  - destruct (f_ctx f =? 0); [|discriminate].
+    cbn [f_topic f_ttl]. rewrite (is_ctx_topic_nonul _ Hc).
+    intros H. inversion H. subst g. cbn [f_ttl]. discriminate.
+  - destruct (mem (f_ctx f) (s_ctxs s)); [|discriminate].
+    cbn [f_topic f_ttl]. destruct (has_nul (f_topic f)); [discriminate|].
+    intros H Ht. inversion H. subst g. cbn [f_ttl] in Ht. rewrite Ht in *.
+    cbn [s_stream s_itopic s_ictx s_gcq s_bcast s_ctxs]. repeat split; reflexivity.
+Qed.
